@@ -494,8 +494,10 @@ def c06(ck, F, tier):
         "error precedence with values are numerical/runtime and not decided.")
     ck.rule("TABLE-ops", "operators evaluate by the arithmetic / predicate they denote", floor=24, exhaustive=True)
     ck.rule("TABLE-cmp", "cross-kind comparison table: antisymmetric, ordered, empty is neutral", floor=25, exhaustive=True)
+    ck.rule("ERR-ORDER", "the right operand's error is returned only when the left operand is known to be Ok", floor=2)
     guarded(ck, re_.table_ops, F)
     guarded(ck, re_.table_cmp, F)
+    guarded(ck, re_.err_order, F)
 
 
 def c07(ck, F, tier):
